@@ -4,6 +4,8 @@
 set -e
 cd "$(dirname "$0")"
 export CARGO_NET_OFFLINE=true
+# the arithmetic kernel translated from /repo's source (coq/Generated/Kernel.v) comes first
+python3 -c "import sys; sys.path.insert(0, 'tools'); import translate; print('kernel:', translate.write())"
 ( cd coq && coq_makefile -f _CoqProject -o Makefile >/dev/null && timeout 3000 make -j16 >/dev/null )
 python3 - <<'PY'
 import sys, os
